@@ -328,10 +328,12 @@ Definition lift_idx_model (qs : list N) (k n : N) (r c : N) : outcome (option (N
 Definition gather (qs : list N) (x : N) : N :=
   fold_left (fun acc q => 2 * acc + N.b2n (N.testbit x q)) qs 0.
 Definition memN (p : N) (l : list N) : bool := existsb (N.eqb p) l.
-Definition rest_agree (qs : list N) (n r c : N) : bool :=
-  forallb (fun p => memN p qs || Bool.eqb (N.testbit r p) (N.testbit c p)) (range 0 n).
-Definition lift_idx_spec (qs : list N) (n r c : N) : option (N * N) :=
-  if rest_agree qs n r c then Some (gather qs r, gather qs c) else None.
+Definition rest_agree (others : list N) (r c : N) : bool :=
+  forallb (fun p => Bool.eqb (N.testbit r p) (N.testbit c p)) others.
+(** [others] (the positions not in [qs]) is computed once per placement. *)
+Definition lift_idx_spec (qs : list N) (n : N) : N -> N -> option (N * N) :=
+  let others := filter (fun p => negb (memN p qs)) (range 0 n) in
+  fun r c => if rest_agree others r c then Some (gather qs r, gather qs c) else None.
 
 (** Matrices as functions; the lifted matrix from an index function. *)
 Definition lifted {T} (zero : T) (M : N -> N -> T) (idx : option (N * N)) : T :=
@@ -378,13 +380,14 @@ Definition cls_get (bcls : list (list N)) (a b : N) : N := nth (N.to_nat b) (nth
 
 Definition expected_rows (idx : N -> N -> option (N * N)) (bcls : list (list N)) (n : N)
   : list (list (N * N)) :=
+  let all := range 0 (2 ^ n) in
   map (fun r =>
          flat_map (fun c => match idx r c with
                             | Some (a, b) => let k := cls_get bcls a b in if k =? 0 then [] else [(c, k)]
                             | None => []
                             end)
-                  (range 0 (2 ^ n)))
-      (range 0 (2 ^ n)).
+                  all)
+      all.
 
 Definition pairN_eqb (a b : N * N) : bool := (fst a =? fst b) && (snd a =? snd b).
 Definition rows_eqb (a b : list (list (N * N))) : bool := list_eqb (list_eqb pairN_eqb) a b.
